@@ -174,3 +174,109 @@ __CPROVER_ensures(CUR != 0 ==> (ONE_CS && __CPROVER_return_value == tm.exit_at_l
 #endif
 ;
 #endif
+
+/* ---- resume(suspend_point<void>&): the forwarding facts, for suspend points of ANY size in both representations (loop contract) --------------
+ * every handle is popped exactly once, wrapped in exactly one closure that captures exactly that handle, and that closure is offered exactly
+ * once to THIS pool; nothing is resumed on the calling thread; a closure the pool rejects (pool stopped) is destroyed un-run by resume() itself.
+ * The closure's construction, enqueue and the destructor of function<> are abstract here (a closure is the cell of lib/model_tpool.c: id 1 =
+ * the closure built for the tracked handle H(spt, gh_G), id 2 = any other).  What the destruction of an un-run closure of THIS kind does to its
+ * coroutine is decided on the real closure in unit resume_sp_stopped (known finding: nothing). */
+#ifdef CV_HAS_rs_resume_sp
+#define RS_CNT(p)   ((p)->_count_flag >> 1)
+#define RS_HEAP(p)  ((p)->_count_flag & 1)
+struct rs_ext { cv_i8 **_handles; cv_i64 _capacity; };
+#define RS_EXT(p)   ((struct rs_ext *)&(p)->f0)
+#define RS_H(p, i)  (RS_HEAP(p) ? RS_EXT(p)->_handles[i] : (p)->f0.f0._handles[i])
+cv_i64 gh_G; cv_i32 gh_cf; cv_i8 *gh_oldH;          /* logical: tracked position, entry count/flag word, the handle stored there */
+struct rs_model { cv_i64 n_built, n_offered, n_accepted, n_unrun, n_resumed_here; cv_i64 trk_built, trk_offered, trk_accepted, trk_unrun; TP *pool; cv_i8 wrong_pool, wrong_handle; } rs;
+#define RS_ZERO (rs.n_built == 0 && rs.n_offered == 0 && rs.n_accepted == 0 && rs.n_unrun == 0 && rs.n_resumed_here == 0 && rs.trk_built == 0 && rs.trk_offered == 0 && \
+   rs.trk_accepted == 0 && rs.trk_unrun == 0 && rs.wrong_pool == 0 && rs.wrong_handle == 0)
+#define RS_N0 ((cv_i64)(gh_cf >> 1))
+void rs_closure_ctor(QI *f, LAMRES *lam) {            /* function<void()>(  [h]{ coro_queue::resume(h); }  ) */
+  int trk = (gh_G < RS_N0 && rs.n_built == RS_N0 - 1 - gh_G);                  /* pop() takes from the back: the k-th closure wraps position n0-1-k */
+  if (trk) { rs.trk_built++; if (lam->h._M_fr_ptr != gh_oldH) rs.wrong_handle = 1; }
+  f->base_function_base._ptr = (void *)(cv_i64)(trk ? 1 : 2); f->base_function_base.space[0] = 0;
+  __CPROVER_assume(rs.n_built < (1ul << 40)); rs.n_built++; }
+void rs_enqueue(TP *pool, QI *f) {
+  cv_i64 id = (cv_i64)(void *)f->base_function_base._ptr;
+  __CPROVER_assert(id != 0, "an empty function object is submitted");
+  if (pool != rs.pool) rs.wrong_pool = 1;
+  rs.n_offered++; if (id == 1) rs.trk_offered++;
+  if (nondet_bool()) { f->base_function_base._ptr = 0; rs.n_accepted++; if (id == 1) rs.trk_accepted++; } }   /* accepted: moved into the queue; else rejected: untouched */
+void rs_qi_dtor(QI *f) { cv_i64 id = (cv_i64)(void *)f->base_function_base._ptr; if (id != 0) { rs.n_unrun++; if (id == 1) rs.trk_unrun++; } f->base_function_base._ptr = 0; }
+#ifdef CV_HAS_rs_cq_resume
+void rs_cq_resume(cv_i8 *h) { rs.n_resumed_here++; }
+#endif
+#define CV_LOOP_rs_resume_sp_0 \
+  __CPROVER_assigns(CV_LOOP_LOCALS_rs_resume_sp_0, spt_addr->_count_flag, __CPROVER_object_whole(&rs)) \
+  __CPROVER_loop_invariant(cv_exc_pending == 0 && RS_HEAP(spt_addr) == (gh_cf & 1) && RS_CNT(spt_addr) <= RS_N0 && rs.pool == this1 && rs.wrong_pool == 0 && rs.wrong_handle == 0 && rs.n_resumed_here == 0) \
+  __CPROVER_loop_invariant(rs.n_built == RS_N0 - RS_CNT(spt_addr) && rs.n_offered == rs.n_built && rs.n_accepted + rs.n_unrun == rs.n_built) \
+  __CPROVER_loop_invariant((gh_G < RS_N0 && gh_G < RS_CNT(spt_addr)) ==> (RS_H(spt_addr, gh_G) == gh_oldH && rs.trk_built == 0 && rs.trk_offered == 0 && rs.trk_accepted == 0 && rs.trk_unrun == 0)) \
+  __CPROVER_loop_invariant((gh_G < RS_N0 && gh_G >= RS_CNT(spt_addr)) ==> (rs.trk_built == 1 && rs.trk_offered == 1 && rs.trk_accepted + rs.trk_unrun == 1))
+void rs_resume_sp(TP *this_, SP *spt)
+__CPROVER_requires(cv_exc_pending == 0 && RS_ZERO && rs.pool == this_ && __CPROVER_is_fresh(spt, sizeof(SP)) && gh_cf == spt->_count_flag && RS_CNT(spt) < (1u << 28))
+__CPROVER_requires(RS_HEAP(spt) ? (RS_EXT(spt)->_capacity >= RS_CNT(spt) && RS_EXT(spt)->_capacity >= 1 && RS_EXT(spt)->_capacity < (1u << 28) && __CPROVER_is_fresh(RS_EXT(spt)->_handles, RS_EXT(spt)->_capacity * sizeof(void *))) : RS_CNT(spt) <= 3)
+__CPROVER_requires(gh_G < RS_CNT(spt) ==> gh_oldH == RS_H(spt, gh_G))
+__CPROVER_assigns(spt->_count_flag, __CPROVER_object_whole(&rs))
+__CPROVER_ensures(cv_exc_pending == 0 && RS_CNT(spt) == 0 && RS_HEAP(spt) == (gh_cf & 1))                    /* the suspend point is left empty */
+__CPROVER_ensures(rs.n_built == RS_N0 && rs.n_offered == RS_N0 && rs.wrong_pool == 0 && rs.n_resumed_here == 0)   /* one closure per handle, each offered once, to this pool; nothing resumed here */
+__CPROVER_ensures(rs.n_accepted + rs.n_unrun == RS_N0)                                                         /* accepted by the pool, or (rejected) destroyed un-run by resume() */
+__CPROVER_ensures(gh_G < RS_N0 ==> (rs.trk_built == 1 && rs.wrong_handle == 0 && rs.trk_offered == 1 && rs.trk_accepted + rs.trk_unrun == 1))   /* the same for the arbitrary tracked handle: its closure captures exactly it */
+;
+#endif
+
+/* ---- thread_pool(threads): `threads` workers (hardware_concurrency() when 0), each running worker() of THIS pool; nothing queued, not stopped --- */
+#ifdef CV_HAS_tp_ctor
+cv_i32 gh_hw;                                   /* what std::thread::hardware_concurrency() answers (logical) */
+#ifdef CV_HAS_thr_hw
+cv_i32 thr_hw(void) { return gh_hw; }
+#endif
+#define CTOR_N(threads) ((cv_i64)((threads) != 0 ? (threads) : gh_hw))
+#define CV_LOOP_tp_ctor_0 \
+  __CPROVER_assigns(CV_LOOP_LOCALS_tp_ctor_0, __CPROVER_object_whole(&tc), __CPROVER_object_whole(gh_tv), TV(&this1->_threads)->b, TV(&this1->_threads)->e, TV(&this1->_threads)->c) \
+  __CPROVER_loop_invariant(cv_exc_pending == 0 && this1 == gh_pool && i <= threads_addr && tc.n_started == i && tc.wrong_this == 0) \
+  __CPROVER_loop_invariant(i == 0 ? (TV(&this1->_threads)->b == 0 || TV(&this1->_threads)->b == gh_tv) && TV(&this1->_threads)->e == TV(&this1->_threads)->b : (TV(&this1->_threads)->b == gh_tv && TV(&this1->_threads)->e == gh_tv + i)) \
+  __CPROVER_loop_invariant(gh_TK < i ==> gh_tv[gh_TK]._M_id._M_thread != 0)
+void tp_ctor(TP *this_, cv_i32 threads)
+__CPROVER_requires(cv_exc_pending == 0 && this_ == gh_pool && tc.n_started == 0 && tc.wrong_this == 0 && gh_me != 0 && CTOR_N(threads) < tv_cap && tv_cap <= (1ul << 20) + 1 && gh_TK < (1ul << 40))
+__CPROVER_assigns(__CPROVER_object_whole(gh_pool), __CPROVER_object_whole(gh_tv), __CPROVER_object_whole(&tc), TP_MODEL_ASSIGNS)
+__CPROVER_ensures(cv_exc_pending == 0 && this_->_exit == 0 && tm.q_len == 0)                                   /* running, nothing queued */
+__CPROVER_ensures(tc.n_started == CTOR_N(threads) && tc.wrong_this == 0)                                         /* exactly that many threads started, each bound to this pool */
+__CPROVER_ensures(CTOR_N(threads) == 0 ? TV(&this_->_threads)->e == TV(&this_->_threads)->b : (TV(&this_->_threads)->b == gh_tv && TV(&this_->_threads)->e == gh_tv + CTOR_N(threads)))   /* all of them in the worker list ... */
+__CPROVER_ensures(gh_TK < CTOR_N(threads) ==> gh_tv[gh_TK]._M_id._M_thread != 0)                                 /* ... as joinable threads */
+;
+#endif
+/* the thread body `[this]{ worker(); }`: runs worker() of the captured pool exactly once (worker is abstract here) */
+#ifdef CV_HAS_thread_body
+int gh_worker_calls; TP *gh_worker_pool;
+#ifdef CV_HAS_tp_worker_abs
+void tp_worker_abs(TP *p) { gh_worker_calls++; gh_worker_pool = p; }
+#endif
+void thread_body(LAMCTOR *this_)
+__CPROVER_requires(cv_exc_pending == 0 && gh_worker_calls == 0 && __CPROVER_is_fresh(this_, sizeof(*this_)))
+__CPROVER_assigns(gh_worker_calls, gh_worker_pool)
+__CPROVER_ensures(cv_exc_pending == 0 && gh_worker_calls == 1 && gh_worker_pool == this_->this)
+;
+#endif
+
+/* ---- co_await pool(awaitable): enqueue_awaiter<Awt>::perform_resume - the resume callback installed on the wrapped awaiter --------------------
+ * when the awaited operation completes, the continuation is handed to the pool: exactly one call of pool.resume(suspend_point&&) on the
+ * awaiter's own pool with a suspend point that holds exactly the awaiting coroutine; the callback itself resumes nothing (returns an empty
+ * suspend point).  pool.resume is abstract here (units resume_sp_fwd / resume_sp_stopped): the continuation inherits the known finding. */
+#ifdef CV_HAS_ea_perform_resume
+struct ea_model { int resume_calls; TP *pool; cv_i32 cf; cv_i8 *h0; int sp_dtor_nonempty; } ea;
+#ifdef CV_HAS_ea_pool_resume
+void ea_pool_resume(TP *pool, SP *sp) { ea.resume_calls++; ea.pool = pool; ea.cf = sp->_count_flag; ea.h0 = sp->f0.f0._handles[0]; sp->_count_flag = 0; }    /* pool.resume empties the suspend point */
+#endif
+#ifdef CV_HAS_ea_sp_dtor
+void ea_sp_dtor(SP *sp) { if (sp->_count_flag >> 1) ea.sp_dtor_nonempty++; }
+#endif
+void ea_perform_resume(SP *ret, AWT *unused, cv_i8 *user_ptr)
+__CPROVER_requires(cv_exc_pending == 0 && ea.resume_calls == 0 && ea.sp_dtor_nonempty == 0 && __CPROVER_is_fresh(ret, sizeof(SP)) && __CPROVER_is_fresh(user_ptr, sizeof(EAW)))
+__CPROVER_requires(((EAW *)user_ptr)->base_awaiter._resume_fn == 0 && ((EAW *)user_ptr)->base_awaiter._handle_addr != 0)      /* as left by enqueue_awaiter::await_suspend: set_handle(h) */
+__CPROVER_assigns(__CPROVER_object_whole(ret), __CPROVER_object_whole(&ea))
+__CPROVER_ensures(cv_exc_pending == 0 && ea.resume_calls == 1 && ea.pool == ((EAW *)user_ptr)->_pool)                       /* handed to the awaiter's own pool, once */
+__CPROVER_ensures(ea.cf == 2 && ea.h0 == ((EAW *)user_ptr)->base_awaiter._handle_addr)                                      /* exactly the awaiting coroutine */
+__CPROVER_ensures(ret->_count_flag == 0 && ea.sp_dtor_nonempty == 0)                                                          /* nothing is resumed on the resolving thread */
+;
+#endif
